@@ -361,7 +361,14 @@ func asTypeOfAttrExpr(attrs hcl.Attributes, bSchema *schema.BlockSchema) (cty.Ty
 		return cty.DynamicPseudoType, false
 	}
 
-	aSchema := bSchema.Body.Attributes[attrName]
+	if bSchema.Body == nil {
+		return cty.DynamicPseudoType, false
+	}
+	aSchema, ok := bSchema.Body.Attributes[attrName]
+	if !ok {
+		// the attribute is written but unknown to the (static) body schema
+		return cty.DynamicPseudoType, false
+	}
 	_, ok = aSchema.Constraint.(schema.TypeDeclaration)
 	if !ok {
 		return cty.DynamicPseudoType, false
